@@ -10,6 +10,7 @@ import (
 	"strings"
 
 	"servitor/config"
+	"servitor/pub"
 )
 
 func (r *reader) bytes() string {
@@ -106,6 +107,13 @@ func init() {
 		out = put64(out, int64(c.Network.Context))
 		out = put64(out, int64(c.Network.Timeout))
 		out = put64(out, int64(c.Network.CacheSize))
+		// "safe to run with": every source of every accepted feed is opened the way ":feed <name>" opens it (the generator
+		// only writes sources that fail without a name lookup); a panic here is reported by the harness as a crash
+		for _, sources := range c.Feeds {
+			for _, src := range sources {
+				_ = pub.FetchUserInput(src)
+			}
+		}
 		return out
 	})
 	// what this very process was started with (end-to-end probe of init())
